@@ -163,8 +163,13 @@ def run_job(job, exe, prop, seed, res, max_restarts=6):
                 d["job"] = job.label
                 d["seed"] = seed
                 d["jobobj"] = job
+                props = str(d.get("prop", "")).split("+")
+                if prop in props and props[0] != prop:
+                    # reported under another property's oracle, but it also refutes this one: keep the key, under this property's name
+                    d["key"] = prop + "/" + d["key"].split("/", 1)[1] + "[" + props[0] + "]"
+                    d["prop"] = prop
                 with res.lock:
-                    (res.viols if d.get("prop") == prop else res.other).append(d)
+                    (res.viols if prop in props else res.other).append(d)
             elif t == "stat":
                 with res.lock:
                     res.stats.append(d)
